@@ -28,46 +28,46 @@ Definition TAG_LEN : nat := 16.
 
 (* a tag is TAG_LEN bytes (Poly1305's output always is; see poly1305_length in CryptoProofs.v);
    for an arbitrary function the value is cut / zero-filled to that size *)
-Definition fit (n : nat) (l : bytes) : bytes := firstn n (l ++ repeat 0 n).
+Definition tag_fit (n : nat) (l : bytes) : bytes := firstn n (l ++ repeat 0 n).
 
-Fixpoint bytes_eqb (a b : bytes) : bool :=
+Fixpoint cr_bytes_eqb (a b : bytes) : bool :=
   match a, b with
   | [], [] => true
-  | x :: a', y :: b' => (x =? y) && bytes_eqb a' b'
+  | x :: a', y :: b' => (x =? y) && cr_bytes_eqb a' b'
   | _, _ => false
   end.
 
-Inductive dec_result :=
+Inductive cr_dec_result :=
 | DecOk (t : btx)
 | DecAead                 (* DecryptingError::AED: too short or tag mismatch *)
-| DecEncode (e : derr).   (* DecryptingError::Encode: the plaintext is not exactly one transaction *)
+| DecEncode (e : btc_derr).   (* DecryptingError::Encode: the plaintext is not exactly one transaction *)
 
 Section AEAD.
   Context (stream : bytes -> nat -> bytes)   (* key -> length -> keystream for the payload *)
           (tag : bytes -> bytes -> bytes)    (* key -> ciphertext -> authentication tag *)
           (H : bytes -> bytes).              (* txid bytes -> AEAD key *)
 
-  Definition tagN (key ct : bytes) : bytes := fit TAG_LEN (tag key ct).
+  Definition tagN (key ct : bytes) : bytes := tag_fit TAG_LEN (tag key ct).
 
   (* Aead::encrypt: postfix tag *)
-  Definition seal (key m : bytes) : bytes :=
+  Definition ae_seal (key m : bytes) : bytes :=
     let ct := xor_with m (stream key (length m)) in
     ct ++ tagN key ct.
 
   (* Aead::decrypt: Err if shorter than a tag; the tag over the ciphertext is compared first
      (constant-time comparison = equality); only then is the keystream applied *)
-  Definition open (key c : bytes) : option bytes :=
+  Definition ae_open (key c : bytes) : option bytes :=
     if Nat.ltb (length c) TAG_LEN then None
     else
       let n := (length c - TAG_LEN)%nat in
       let ct := firstn n c in
       let tg := skipn n c in
-      if bytes_eqb (tagN key ct) tg then Some (xor_with ct (stream key (length ct))) else None.
+      if cr_bytes_eqb (tagN key ct) tg then Some (xor_with ct (stream key (length ct))) else None.
 
-  Definition encrypt (t : btx) (k : bytes) : bytes := seal (H k) (tx_encode t).
+  Definition ae_encrypt (t : btx) (k : bytes) : bytes := ae_seal (H k) (tx_encode t).
 
-  Definition decrypt_r (c k : bytes) : dec_result :=
-    match open (H k) c with
+  Definition ae_decrypt_r (c k : bytes) : cr_dec_result :=
+    match ae_open (H k) c with
     | None => DecAead
     | Some p => match tx_deserialize p with
                 | inl t => DecOk t
@@ -75,8 +75,8 @@ Section AEAD.
                 end
     end.
 
-  Definition decrypt (c k : bytes) : option btx :=
-    match decrypt_r c k with DecOk t => Some t | _ => None end.
+  Definition ae_decrypt (c k : bytes) : option btx :=
+    match ae_decrypt_r c k with DecOk t => Some t | _ => None end.
 
   (* The events a successful `open` of something other than the sealed blob under its own key
      exhibits.  They are what the cryptographic assumptions (Poly1305 one-time-MAC security with a
@@ -101,15 +101,15 @@ Definition rotl32 (x n : N) : N := N.lor (w32 (N.shiftl x n)) (N.shiftr x (32 - 
 Definition rotr32 (x n : N) : N := N.lor (N.shiftr x n) (w32 (N.shiftl x (32 - n))).
 Definition lxor3 (a b c : N) : N := N.lxor (N.lxor a b) c.
 
-Definition be_bytes (n : nat) (v : N) : bytes := rev (le_bytes n v).
-Definition be_val (bs : bytes) : N := le_val (rev bs).
+Definition cr_be_bytes (n : nat) (v : N) : bytes := rev (le_bytes n v).
+Definition cr_be_val (bs : bytes) : N := le_val (rev bs).
 
 (* consecutive chunks of n elements (the last one may be shorter); fuel >= length l suffices *)
-Fixpoint chunks {A} (fuel n : nat) (l : list A) : list (list A) :=
+Fixpoint cr_chunks {A} (fuel n : nat) (l : list A) : list (list A) :=
   match l, fuel with
   | [], _ => []
   | _, O => []
-  | _, S f => firstn n l :: chunks f n (skipn n l)
+  | _, S f => firstn n l :: cr_chunks f n (skipn n l)
   end.
 
 (* ---------- SHA-256 (FIPS 180-4) ---------- *)
@@ -147,25 +147,25 @@ Fixpoint sha_rounds (ks : list N) (w : list N) (s : list N) : list N :=
                [add32 t1 t2; g 0%nat; g 1%nat; g 2%nat; add32 (g 3%nat) t1; g 4%nat; g 5%nat; g 6%nat]
   end.
 
-Fixpoint map2 {A B C} (f : A -> B -> C) (a : list A) (b : list B) : list C :=
+Fixpoint cr_map2 {A B C} (f : A -> B -> C) (a : list A) (b : list B) : list C :=
   match a, b with
-  | x :: a', y :: b' => f x y :: map2 f a' b'
+  | x :: a', y :: b' => f x y :: cr_map2 f a' b'
   | _, _ => []
   end.
 
 Definition sha_block (s : list N) (block : bytes) : list N :=
-  map2 add32 s (sha_rounds SHA_K (map be_val (chunks 16 4 block)) s).
+  cr_map2 add32 s (sha_rounds SHA_K (map cr_be_val (cr_chunks 16 4 block)) s).
 
 Definition sha_pad (msg : bytes) : bytes :=
   let l := length msg in
-  msg ++ [128] ++ repeat 0 ((64 - (l + 9) mod 64) mod 64)%nat ++ be_bytes 8 (8 * N.of_nat l).
+  msg ++ [128] ++ repeat 0 ((64 - (l + 9) mod 64) mod 64)%nat ++ cr_be_bytes 8 (8 * N.of_nat l).
 
 Definition sha256 (msg : bytes) : bytes :=
   let p := sha_pad msg in
-  flat_map (be_bytes 4) (fold_left sha_block (chunks (length p) 64 p) SHA_H0).
+  flat_map (cr_be_bytes 4) (fold_left sha_block (cr_chunks (length p) 64 p) SHA_H0).
 
 (* ---------- ChaCha20 (RFC 8439 section 2.3 / 2.4) ---------- *)
-Definition upd (l : list N) (i : nat) (v : N) : list N := firstn i l ++ v :: skipn (S i) l.
+Definition cr_upd (l : list N) (i : nat) (v : N) : list N := firstn i l ++ v :: skipn (S i) l.
 
 Definition cc_qr (s : list N) (a b c d : nat) : list N :=
   let xa := nth a s 0 in let xb := nth b s 0 in let xc := nth c s 0 in let xd := nth d s 0 in
@@ -173,7 +173,7 @@ Definition cc_qr (s : list N) (a b c d : nat) : list N :=
   let xc := add32 xc xd in let xb := rotl32 (N.lxor xb xc) 12 in
   let xa := add32 xa xb in let xd := rotl32 (N.lxor xd xa) 8 in
   let xc := add32 xc xd in let xb := rotl32 (N.lxor xb xc) 7 in
-  upd (upd (upd (upd s a xa) b xb) c xc) d xd.
+  cr_upd (cr_upd (cr_upd (cr_upd s a xa) b xb) c xc) d xd.
 
 Definition cc_double_round (s : list N) : list N :=
   let s := cc_qr s 0 4 8 12 in let s := cc_qr s 1 5 9 13 in
@@ -181,16 +181,16 @@ Definition cc_double_round (s : list N) : list N :=
   let s := cc_qr s 0 5 10 15 in let s := cc_qr s 1 6 11 12 in
   let s := cc_qr s 2 7 8 13 in cc_qr s 3 4 9 14.
 
-Fixpoint iter {A} (n : nat) (f : A -> A) (x : A) : A :=
-  match n with O => x | S n' => iter n' f (f x) end.
+Fixpoint cr_iter {A} (n : nat) (f : A -> A) (x : A) : A :=
+  match n with O => x | S n' => cr_iter n' f (f x) end.
 
 (* "expand 32-byte k" *)
 Definition CC_CONST : list N := [1634760805; 857760878; 2036477234; 1797285236].
 
 (* one 64-byte keystream block; key 32 bytes, nonce 12 bytes, 32-bit block counter *)
 Definition chacha_block (key : bytes) (counter : N) (nonce : bytes) : bytes :=
-  let init := CC_CONST ++ map le_val (chunks 8 4 key) ++ [w32 counter] ++ map le_val (chunks 3 4 nonce) in
-  flat_map (le_bytes 4) (map2 add32 init (iter 10 cc_double_round init)).
+  let init := CC_CONST ++ map le_val (cr_chunks 8 4 key) ++ [w32 counter] ++ map le_val (cr_chunks 3 4 nonce) in
+  flat_map (le_bytes 4) (cr_map2 add32 init (cr_iter 10 cc_double_round init)).
 
 Fixpoint chacha_blocks (nblocks : nat) (key : bytes) (counter : N) (nonce : bytes) : bytes :=
   match nblocks with
@@ -232,16 +232,16 @@ Definition cc_tag (nonce aad : bytes) (key ct : bytes) : bytes :=
   poly1305 (firstn 32 (chacha_block key 0 nonce)) (aead_mac_data aad ct).
 Definition cc_stream (nonce : bytes) (key : bytes) (n : nat) : bytes := chacha_stream key nonce 1 n.
 
-Definition aead_seal (key nonce aad pt : bytes) : bytes := seal (cc_stream nonce) (cc_tag nonce aad) key pt.
-Definition aead_open (key nonce aad c : bytes) : option bytes := open (cc_stream nonce) (cc_tag nonce aad) key c.
+Definition aead_seal (key nonce aad pt : bytes) : bytes := ae_seal (cc_stream nonce) (cc_tag nonce aad) key pt.
+Definition aead_open (key nonce aad c : bytes) : option bytes := ae_open (cc_stream nonce) (cc_tag nonce aad) key c.
 
 (* cryptography::encrypt / decrypt: nonces as generated from the source, no associated data *)
 Definition c_encrypt (t : btx) (k : bytes) : bytes :=
-  encrypt (cc_stream CryptoParams.ENC_NONCE) (cc_tag CryptoParams.ENC_NONCE []) sha256 t k.
-Definition c_decrypt_r (c k : bytes) : dec_result :=
-  decrypt_r (cc_stream CryptoParams.DEC_NONCE) (cc_tag CryptoParams.DEC_NONCE []) sha256 c k.
+  ae_encrypt (cc_stream CryptoParams.ENC_NONCE) (cc_tag CryptoParams.ENC_NONCE []) sha256 t k.
+Definition c_decrypt_r (c k : bytes) : cr_dec_result :=
+  ae_decrypt_r (cc_stream CryptoParams.DEC_NONCE) (cc_tag CryptoParams.DEC_NONCE []) sha256 c k.
 Definition c_decrypt (c k : bytes) : option btx :=
-  decrypt (cc_stream CryptoParams.DEC_NONCE) (cc_tag CryptoParams.DEC_NONCE []) sha256 c k.
+  ae_decrypt (cc_stream CryptoParams.DEC_NONCE) (cc_tag CryptoParams.DEC_NONCE []) sha256 c k.
 
 (* ================================================================================== *)
 (* (c) locator, zbase32, signature container                                           *)
@@ -249,7 +249,7 @@ Definition c_decrypt (c k : bytes) : option btx :=
 
 (* Locator::new(txid) = txid[LOCATOR_FROM..LOCATOR_TO]: indexing a Txid indexes its byte array in
    serialisation order (the reverse of the order the hex display uses) *)
-Definition locator (k : bytes) : bytes :=
+Definition cr_locator (k : bytes) : bytes :=
   firstn (Z.to_nat (CryptoParams.LOCATOR_TO - CryptoParams.LOCATOR_FROM))
          (skipn (Z.to_nat CryptoParams.LOCATOR_FROM) k).
 
@@ -266,7 +266,7 @@ Definition ZBASE_INV : list Z :=
    21; 9; 10; -1; 11; 2; 16; 13; 14; 4; 22; 17; 19; -1; 20; 15; 0; 23]%Z.
 
 (* encode_data, one chunk: the chunk is copied into a zeroed 5-byte buffer *)
-Definition zb_enc_chunk (c : bytes) : list N :=
+Definition crzb_enc_chunk (c : bytes) : list N :=
   let b i := nth i c 0 in
   [ N.shiftr (N.land (b 0%nat) 248) 3;
     N.lor (shl8 (N.land (b 0%nat) 7) 2) (N.shiftr (N.land (b 1%nat) 192) 6);
@@ -277,39 +277,39 @@ Definition zb_enc_chunk (c : bytes) : list N :=
     N.lor (shl8 (N.land (b 3%nat) 3) 3) (N.shiftr (N.land (b 4%nat) 224) 5);
     N.land (b 4%nat) 31 ].
 
-Fixpoint zb_enc_data (fuel : nat) (data : bytes) : list N :=
+Fixpoint crzb_enc_data (fuel : nat) (data : bytes) : list N :=
   match data, fuel with
   | [], _ => []
   | _, O => []
-  | _, S f => zb_enc_chunk (firstn 5 data) ++ zb_enc_data f (skipn 5 data)
+  | _, S f => crzb_enc_chunk (firstn 5 data) ++ crzb_enc_data f (skipn 5 data)
   end.
 
 (* Alphabet::ZBase32.encode: characters as their ASCII codes *)
-Definition zb_encode (data : bytes) : bytes :=
+Definition crzb_encode (data : bytes) : bytes :=
   map (fun q => nth (N.to_nat q) ZBASE_ALPHABET 0)
-      (firstn ((length data * 8 + 4) / 5) (zb_enc_data (length data) data)).
+      (firstn ((length data * 8 + 4) / 5) (crzb_enc_data (length data) data)).
 
 Definition ascii_upper (c : N) : N := if (97 <=? c) && (c <=? 122) then c - 32 else c.
 
 (* alphabet.get(c.to_ascii_uppercase().wrapping_sub(b'0') as usize): None or -1 = invalid *)
-Definition zb_inv (c : N) : option N :=
+Definition crzb_inv (c : N) : option N :=
   let i := (ascii_upper c + 256 - 48) mod 256 in
   match nth_error ZBASE_INV (N.to_nat i) with
   | Some v => if (v <? 0)%Z then None else Some (Z.to_N v)
   | None => None
   end.
 
-Fixpoint opt_map_all {A B} (f : A -> option B) (l : list A) : option (list B) :=
+Fixpoint cr_opt_map_all {A B} (f : A -> option B) (l : list A) : option (list B) :=
   match l with
   | [] => Some []
-  | x :: r => match f x, opt_map_all f r with
+  | x :: r => match f x, cr_opt_map_all f r with
               | Some y, Some ys => Some (y :: ys)
               | _, _ => None
               end
   end.
 
 (* decode_data, one chunk of values copied into a zeroed 8-byte buffer *)
-Definition zb_dec_chunk (v : list N) : bytes :=
+Definition crzb_dec_chunk (v : list N) : bytes :=
   let b i := nth i v 0 in
   [ N.lor (shl8 (b 0%nat) 3) (N.shiftr (b 1%nat) 2);
     N.lor (N.lor (shl8 (b 1%nat) 6) (shl8 (b 2%nat) 1)) (N.shiftr (b 3%nat) 4);
@@ -317,22 +317,22 @@ Definition zb_dec_chunk (v : list N) : bytes :=
     N.lor (N.lor (shl8 (b 4%nat) 7) (shl8 (b 5%nat) 2)) (N.shiftr (b 6%nat) 3);
     N.lor (shl8 (b 6%nat) 5) (b 7%nat) ].
 
-Fixpoint zb_dec_data (fuel : nat) (vals : list N) : bytes :=
+Fixpoint crzb_dec_data (fuel : nat) (vals : list N) : bytes :=
   match vals, fuel with
   | [], _ => []
   | _, O => []
-  | _, S f => zb_dec_chunk (firstn 8 vals) ++ zb_dec_data f (skipn 8 vals)
+  | _, S f => crzb_dec_chunk (firstn 8 vals) ++ crzb_dec_data f (skipn 8 vals)
   end.
 
 (* Alphabet::ZBase32.decode *)
-Definition zb_decode (s : bytes) : option bytes :=
+Definition crzb_decode (s : bytes) : option bytes :=
   let l := length s in
   let m := (l mod 8)%nat in
   if Nat.eqb m 1 || Nat.eqb m 3 || Nat.eqb m 6 then None
-  else match opt_map_all zb_inv s with
+  else match cr_opt_map_all crzb_inv s with
        | None => None
        | Some vals =>
-         let ret := zb_dec_data l vals in
+         let ret := crzb_dec_data l vals in
          let n := (l * 5 / 8)%nat in
          if forallb (fun c => c =? 0) (skipn n ret) then Some (firstn n ret) else None
        end.
@@ -350,9 +350,9 @@ Definition sigrec_decode (b : bytes) : option (N * bytes) :=
   | [] => None
   end.
 
-Definition sig_encode (rid : N) (compact : bytes) : bytes := zb_encode (sigrec_encode rid compact).
-Definition sig_decode (s : bytes) : option (N * bytes) :=
-  match zb_decode s with Some b => sigrec_decode b | None => None end.
+Definition lnsig_encode (rid : N) (compact : bytes) : bytes := crzb_encode (sigrec_encode rid compact).
+Definition lnsig_decode (s : bytes) : option (N * bytes) :=
+  match crzb_decode s with Some b => sigrec_decode b | None => None end.
 
 (* the digest that is signed: sha256d("Lightning Signed Message:" ++ msg) *)
 (* b"Lightning Signed Message:" (checked against the text in CryptoVectors.v) *)
@@ -367,30 +367,30 @@ Definition ln_digest (msg : bytes) : bytes := sha256 (sha256 (LN_MESSAGE_PREFIX 
 
 (* "the locator of k is its first 16 bytes": stated on the bytes, independently of `locator`
    above (which follows what the source says today) *)
-Definition mon_locator (k loc : bytes) : bool := bytes_eqb loc (firstn 16 k).
+Definition mon17_locator (k loc : bytes) : bool := cr_bytes_eqb loc (firstn 16 k).
 
 (* two signature texts denote the same 65-byte value (zbase32 decoding ignores letter case, so
    one value has several spellings) *)
 Definition sig_same_value (s s' : bytes) : bool :=
-  match zb_decode s, zb_decode s' with
-  | Some a, Some b => bytes_eqb a b
+  match crzb_decode s, crzb_decode s' with
+  | Some a, Some b => cr_bytes_eqb a b
   | _, _ => false
   end.
 
 (* (msg', sig') is an alteration of the signed (msg, sig) unless the message is unchanged and the
    text still denotes the same signature value; an alteration must not verify for the signer *)
-Definition mon_sig_mutation (msg msg' sig sig' : bytes) (verifies : bool) : bool :=
-  if bytes_eqb msg msg' && sig_same_value sig sig' then true else negb verifies.
+Definition mon17_sig_mutation (msg msg' sig sig' : bytes) (verifies : bool) : bool :=
+  if cr_bytes_eqb msg msg' && sig_same_value sig sig' then true else negb verifies.
 
 Definition c17_tx_encode := tx_encode.
 Definition c17_tx_deserialize := tx_deserialize.
 Definition c17_tx_wf := tx_wf.
 Definition c17_encrypt := c_encrypt.
 Definition c17_decrypt_r := c_decrypt_r.
-Definition c17_locator := locator.
+Definition c17_locator := cr_locator.
 Definition c17_ln_digest := ln_digest.
-Definition c17_sig_encode := sig_encode.
-Definition c17_sig_decode := sig_decode.
-Definition c17_mon_locator := mon_locator.
+Definition c17_sig_encode := lnsig_encode.
+Definition c17_sig_decode := lnsig_decode.
+Definition c17_mon_locator := mon17_locator.
 Definition c17_sig_same_value := sig_same_value.
-Definition c17_mon_sig_mutation := mon_sig_mutation.
+Definition c17_mon_sig_mutation := mon17_sig_mutation.
